@@ -620,73 +620,174 @@ def frame(ctx: Ctx) -> List[Ob]:
 @rule("FS", ["C19"], floor=8, section="3.13")
 def fs(ctx: Ctx) -> List[Ob]:
     """load_tree_from_fs: both branches build the same entries (name, is_dir / size<-st_size, mdate<-st_mtime), recurse once per directory with the created node, and the sorted branch lists files first (by name) then directories (by name)"""
+    from .util import not_after, resolve_expr
+
     obs: List[Ob] = []
     m = ctx.model
     f = m.func("load_tree_from_fs.visit")
     top = m.func("load_tree_from_fs")
     nparam, pparam = f.positional_params()[:2]
-    ifs = [n for n in f.body if isinstance(n, ast.If) and norm(n.test) == "sort"]
-    if len(ifs) != 1:
-        raise AnalysisError("load_tree_from_fs.visit: `if sort:` branch not found")
-    sorted_part = ifs[0].body
-    unsorted_part = [s for s in f.body if s is not ifs[0]]
-    ok = isinstance(sorted_part[-1], ast.Return)
-    obs.append(ctx.ob("FS", ["C19"], f, "the sorted branch returns before the unsorted scan", None, ok, "" if ok else "entries would be added twice"))
 
-    def ctor_shapes(stmts) -> Set[str]:
-        out = set()
-        for c, e in find("FileSystemEntry($$a, is_dir=True)", stmts):
-            out.add("dir")
-        for c, e in find("FileSystemEntry($$a, size=$s.st_size, mdate=$s.st_mtime)", stmts):
-            out.add("file")
-        n_all = len([c for s in stmts for c in ast.walk(s) if isinstance(c, ast.Call) and norm(c.func) == "FileSystemEntry"])
-        if n_all != 2:
-            out.add(f"{n_all} constructor calls")
-        return out
+    def T(g, label, ok, why="", props=("C19",)):
+        obs.append(ctx.tri("FS", list(props), g, label, None, ok, why))
 
-    a, b = ctor_shapes(sorted_part), ctor_shapes(unsorted_part)
-    ok = a == b == {"dir", "file"}
-    obs.append(ctx.ob("FS", ["C19"], f, "sorted and unsorted branch construct the same two entry shapes (dir flag / size<-st_size, mdate<-st_mtime)", None, ok,
-                      "" if ok else f"sorted: {sorted(a)} / unsorted: {sorted(b)}"))
-    for part, nm in ((sorted_part, "sorted"), (unsorted_part, "unsorted")):
-        recs = [c for s in part for c in ast.walk(s) if isinstance(c, ast.Call) and norm(c.func) == f.name]
-        ok = len(recs) == 1 and len(recs[0].args) == 2
-        if ok:
-            pn = one(f"$pn = {nparam}.add($o)", part) or one(f"$pn = {nparam}.add_child($o)", part)
-            ok = pn is not None and match("$pn", recs[0].args[0], {"$pn": pn[1]["$pn"]}) is not None
-        obs.append(ctx.ob("FS", ["C19"], f, f"{nm}: each directory is added and scanned once, below its own node", None, ok, "" if ok else "sub-directories must appear at the corresponding depth"))
-        tests = [norm(n.test).split(".")[-1] for s in part for n in ast.walk(s) if isinstance(n, ast.If) and "is_" in norm(n.test)]
-        ok = tests == ["is_dir()", "is_file()"]
-        obs.append(ctx.ob("FS", ["C19"], f, f"{nm}: directories and regular files are classified by is_dir()/is_file()", None, ok, ""))
-    loops = [s for s in sorted_part if isinstance(s, ast.For) and isinstance(s.iter, ast.Call) and norm(s.iter.func) == "sorted"]
-    ok = len(loops) == 2
-    if ok:
-        e1 = match("sorted($files, key=attrgetter('name'))", loops[0].iter)
-        e2 = match("sorted($dirs, key=itemgetter(0))", loops[1].iter)
-        ok = e1 is not None and e2 is not None and len(loops[0].body) == 1 and (match(f"{nparam}.add($o)", loops[0].body[0]) is not None)
-        if ok:
-            # files are FileSystemEntry objects, dirs are (path, entry) pairs
-            ok = has("$files.append($o)", sorted_part, e1) and has("$dirs.append(($c, $o))", sorted_part, e2)
-    obs.append(ctx.ob("FS", ["C19"], f, "sorted: files first (by name), then directories (by path name)", None, ok, "" if ok else "files first, name-sorted, then sub-directories, name-sorted"))
+    def branch(node) -> Optional[str]:
+        ts = cond_texts(path_conds(ctx, f, node))
+        return "sorted" if "sort" in ts else ("unsorted" if "not sort" in ts else None)
+
+    ctors = [c for c in ast.walk(f.node) if isinstance(c, ast.Call) and norm(c.func) == "FileSystemEntry"]
+    shapes: Dict[str, List[str]] = {"sorted": [], "unsorted": []}
+    entry_of: Dict[int, Tuple[str, str]] = {}
+    for c in ctors:
+        br = branch(c)
+        if br is None:
+            shapes.setdefault("?", []).append(norm(c))
+            continue
+        ts = cond_texts(path_conds(ctx, f, c))
+        name = norm(resolve_expr(ctx, f, c, c.args[0])) if c.args else "?"
+        kw = {k.arg: norm(resolve_expr(ctx, f, c, k.value)) for k in c.keywords}
+        subj = None
+        for t_ in ts:
+            if t_.endswith(".is_dir()") and not t_.startswith("not "):
+                subj = ("dir", t_[: -len(".is_dir()")])
+            elif t_.endswith(".is_file()") and not t_.startswith("not ") and subj is None:
+                subj = ("file", t_[: -len(".is_file()")])
+        if subj is None:
+            shapes[br].append(f"unclassified {norm(c)}")
+            continue
+        kind, x = subj
+        if kind == "dir":
+            good = name in (f"{x}.name", f"f'{{{x}.name}}'", f"str({x}.name)") and kw == {"is_dir": "True"}
+        else:
+            good = name in (f"{x}.name", f"f'{{{x}.name}}'") and kw == {"size": f"{x}.stat().st_size", "mdate": f"{x}.stat().st_mtime"} and f"not {x}.is_dir()" in ts
+        shapes[br].append(kind if good else f"{kind}? {norm(c)} {kw}")
+        entry_of[id(c)] = (kind, x)
+    ok = None if not ctors else all(sorted(shapes[b_]) == ["dir", "file"] for b_ in ("sorted", "unsorted")) and "?" not in shapes
+    T(f, "sorted and unsorted branch construct the same two entry shapes (dir flag / size<-st_size, mdate<-st_mtime), classified by is_dir()/is_file()", ok,
+      f"sorted: {sorted(shapes['sorted'])} / unsorted: {sorted(shapes['unsorted'])}")
+    # the sorted scan and the unsorted scan exclude each other
+    its = [c for c in ast.walk(f.node) if isinstance(c, ast.Call) and norm(c.func) == f"{pparam}.iterdir"]
+    ok = None if not its else (len(its) == 2 and sorted(branch(c) or "?" for c in its) == ["sorted", "unsorted"])
+    T(f, "the directory is scanned once: either the sorted or the unsorted way", ok, "entries would be added twice")
+    # recursion: once per directory, below the node created for that directory
+    recs = [c for c in ast.walk(f.node) if isinstance(c, ast.Call) and norm(c.func) == f.name and len(c.args) == 2]
+    for nm in ("sorted", "unsorted"):
+        rs = [c for c in recs if branch(c) == nm]
+        ok = None
+        if len(rs) == 1:
+            a0 = resolve_expr(ctx, f, rs[0], rs[0].args[0])
+            e = match(f"{nparam}.add($$o)", a0) or match(f"{nparam}.add_child($$o)", a0)
+            sub = norm(rs[0].args[1])
+            ok = False
+            if e is not None:
+                o = e["$$o"]
+                if isinstance(o, ast.Call) and id_of_ctor(o, ctors, entry_of) == ("dir", sub):
+                    ok = True
+                elif isinstance(o, ast.Name):
+                    # the entry travels with its path in a (path, entry) pair collected for sorting
+                    pairs = find("$l.append(($c, $$o2))", f.node)
+                    for n_, e2 in pairs:
+                        o2 = resolve_expr(ctx, f, n_, e2["$$o2"])
+                        lp_ = [l_ for l_ in ast.walk(f.node) if isinstance(l_, ast.For) and any(rs[0] is x for x in ast.walk(l_)) and isinstance(l_.target, ast.Tuple)
+                               and [norm(t_) for t_ in l_.target.elts] == [sub, o.id] and e2["$l"] in [x.id for x in ast.walk(l_.iter) if isinstance(x, ast.Name)]]
+                        if lp_ and isinstance(o2, ast.Call) and norm(o2.func) == "FileSystemEntry" and any(k.arg == "is_dir" for k in o2.keywords) \
+                                and norm(o2.args[0]) in (f"{e2['$c']}.name", f"f'{{{e2['$c']}.name}}'"):
+                            ok = True
+        elif len(rs) != 1 and recs:
+            ok = False
+        T(f, f"{nm}: each directory is added and scanned once, below its own node", ok, "sub-directories must appear at the corresponding depth")
+    # sorted branch: files first (by name) then directories (by path name)
+    adds = [c for c in ast.walk(f.node) if isinstance(c, ast.Call) and norm(c.func) in (f"{nparam}.add", f"{nparam}.add_child") and branch(c) == "sorted"]
+    ok = None
+    if len(adds) == 2:
+        def loop_of(c):
+            p_ = m.parent_of(c)
+            while p_ is not None and not isinstance(p_, ast.For):
+                p_ = m.parent_of(p_)
+            return p_
+
+        def sort_key(lp_) -> Optional[Tuple[str, str]]:
+            """(list name, key text) the loop iterates in sorted order"""
+            e_ = match("sorted($l, key=$$k)", lp_.iter)
+            if e_ is not None:
+                return e_["$l"], norm(e_["$$k"])
+            if isinstance(lp_.iter, ast.Name):
+                srt = [n_ for n_, e3 in find(f"{lp_.iter.id}.sort(key=$$k)", f.node) if not_after(ctx, f, n_, lp_)]
+                if len(srt) == 1:
+                    return lp_.iter.id, norm(match(f"{lp_.iter.id}.sort(key=$$k)", srt[0])["$$k"])
+            return None
+
+        fl, dl = None, None
+        for c in adds:
+            lp_ = loop_of(c)
+            if lp_ is None:
+                continue
+            if any(r_ is x for r_ in recs for x in ast.walk(lp_)):
+                dl = (lp_, sort_key(lp_))
+            else:
+                fl = (lp_, sort_key(lp_))
+        if fl and dl and fl[1] and dl[1]:
+            ok = fl[1][1] == "attrgetter('name')" and dl[1][1] == "itemgetter(0)" and not_after(ctx, f, fl[0], dl[0]) and fl[0] is not dl[0] \
+                and bool(find(f"{fl[1][0]}.append($$o)", f.node)) and bool(find(f"{dl[1][0]}.append(($$c, $$o))", f.node))
+    T(f, "sorted: files first (by name), then directories (by path name)", ok, "files first, name-sorted, then sub-directories, name-sorted")
     e = one("$t = FileSystemTree(str(path))", top.node)
-    ok = e is not None and has(f"{f.name}($t._root, path)", top.node, {"$t": e[1]["$t"]}) and any(match("$t", r.value, {"$t": e[1]["$t"]}) is not None for r in _returns(top))
-    obs.append(ctx.ob("FS", ["C19"], top, "the scan starts at the root with the given path and builds a FileSystemTree", None, ok, ""))
+    ok = None
+    if e is not None:
+        ok = has(f"{f.name}($t._root, path)", top.node, {"$t": e[1]["$t"]}) and any(match("$t", r.value, {"$t": e[1]["$t"]}) is not None for r in _returns(top))
+    T(top, "the scan starts at the root with the given path and builds a FileSystemTree", ok, "")
     e = m.func("FileSystemEntry.__init__")
-    ok = has("self.name = name", e.node) and has("self.is_dir = is_dir", e.node) and has("self.size = int(size)", e.node) \
-        and has("self.mdate = float(mdate) if mdate is not None else None", e.node)
-    obs.append(ctx.ob("FS", ["C19"], e, "FileSystemEntry stores name, is_dir, size, mdate (mdate 0.0 is a value)", None, ok, ""))
+    ok = has("self.name = name", e.node) and has("self.is_dir = is_dir", e.node) and has("self.size = int(size)", e.node)
+    md = find("self.mdate = $$v", e.node)
+    if ok and md:
+        flt = [n_ for n_, e_ in md if norm(e_["$$v"]) == "float(mdate)"]
+        non = [n_ for n_, e_ in md if norm(e_["$$v"]) == "None"]
+        ok = (len(md) == 1 and norm(md[0][1]["$$v"]) == "float(mdate) if mdate is not None else None") or (
+            len(flt) == 1 and len(non) == 1 and "not (mdate is None)" in cond_texts(path_conds(ctx, e, flt[0])) | {t_.replace("not mdate is None", "not (mdate is None)") for t_ in cond_texts(path_conds(ctx, e, flt[0]))}
+            and "mdate is None" in cond_texts(path_conds(ctx, e, non[0])))
+    elif ok:
+        ok = None
+    T(e, "FileSystemEntry stores name, is_dir, size, mdate (mdate 0.0 is a value)", ok, "")
     sm, dm = m.func("FileSystemTree.serialize_mapper"), m.func("FileSystemTree.deserialize_mapper")
-    e = one("$i = node.data", sm.node)
-    ok = e is not None and has("if $i.is_dir:\n    data.update({'n': $i.name, 'd': True})\nelse:\n    data.update({'n': $i.name, 's': $i.size, 'm': $i.mdate})", sm.node, {"$i": e[1]["$i"]})
-    obs.append(ctx.ob("FS", ["C19", "C05"], sm, "serialize: directories {n, d}, files {n, s<-size, m<-mdate}", None, ok, ""))
-    ok = has("if 'd' in data:\n    return FileSystemEntry(data['n'], is_dir=True)", dm.node) and has("return FileSystemEntry(data['n'], size=data['s'], mdate=data['m'])", dm.node)
-    obs.append(ctx.ob("FS", ["C19", "C05"], dm, "deserialize mirrors serialize (d -> directory; s -> size, m -> mdate)", None, ok, ""))
+    ups = [c for c in ctx.env.calls_in[sm] if norm(c.func) == "data.update" and c.args and isinstance(c.args[0], ast.Dict)]
+    ok = None
+    if len(ups) == 2:
+        tab = {}
+        for c in ups:
+            d_ = {norm(k): norm(resolve_expr(ctx, sm, c, v)) for k, v in zip(c.args[0].keys, c.args[0].values)}
+            ts = cond_texts(path_conds(ctx, sm, c))
+            tab["dir" if "node.data.is_dir" in ts else ("file" if "not node.data.is_dir" in ts else "?")] = d_
+        ok = tab == {"dir": {"'n'": "node.data.name", "'d'": "True"}, "file": {"'n'": "node.data.name", "'s'": "node.data.size", "'m'": "node.data.mdate"}}
+    T(sm, "serialize: directories {n, d}, files {n, s<-size, m<-mdate}", ok, "", props=("C19", "C05"))
+    cs = [c for c in exit_cases(ctx, dm, ("return",)) if c.value is not None]
+    ok = None
+    if len(cs) == 2:
+        tab = {}
+        for c in cs:
+            ts = cond_texts(c.conds)
+            tab["dir" if "'d' in data" in ts else ("file" if "not 'd' in data" in ts or "not ('d' in data)" in ts else "?")] = norm(resolve_expr(ctx, dm, c.stmt, c.value))
+        ok = tab == {"dir": "FileSystemEntry(data['n'], is_dir=True)", "file": "FileSystemEntry(data['n'], size=data['s'], mdate=data['m'])"}
+    T(dm, "deserialize mirrors serialize (d -> directory; s -> size, m -> mdate)", ok, "", props=("C19", "C05"))
     # FileSystemEntry must not define data equality: equal entries would become clones
     fe = m.classes.get("FileSystemEntry")
     bad = [n for n in (fe.methods if fe else {}) if n in ("__eq__", "__hash__")]
     obs.append(ctx.ob("FS", ["C19", "C05"], "fs:FileSystemEntry", "entries are compared by identity (no __eq__/__hash__): distinct files never become clones", None, not bad,
                       "" if not bad else f"{bad}: two files with equal attributes would be stored as one clone group and share attributes after save/load"))
     return obs
+
+
+def not_after_(ctx, f, a, b) -> bool:
+    from .util import not_after
+
+    return not_after(ctx, f, a, b)
+
+
+def id_of_ctor(o: ast.Call, ctors, entry_of) -> Optional[Tuple[str, str]]:
+    """classification of a FileSystemEntry(...) expression that was resolved (copied) from one of the constructor calls"""
+    t = norm(o)
+    for c in ctors:
+        if norm(c) == t and id(c) in entry_of:
+            return entry_of[id(c)]
+    return None
 
 
 # ---------------------------------------------------------------------- GEN
@@ -699,12 +800,12 @@ def gen(ctx: Ctx) -> List[Ob]:
     if len(gens) < 5:
         raise AnalysisError("fewer than 5 Randomizer.generate implementations")
     for f in gens:
-        stm = [s for s in f.body if not (isinstance(s, ast.Expr) and isinstance(s.value, ast.Constant))]
-        first = stm[0]
-        ok = isinstance(first, ast.If) and match("self._skip_value()", first.test) is not None and isinstance(first.body[0], ast.Return)
-        if ok:
-            rv = first.body[0].value
-            ok = rv is None or norm(rv) in ("None", "self.none_value")
+        cs = exit_cases(ctx, f, ("return",))
+        valued = [c for c in cs if c.value is not None and norm(c.value) not in ("None", "self.none_value")]
+        ok = bool(valued) and all(any((not pol) and norm(e) == "self._skip_value()" for e, pol in c.conds) for c in valued)
+        # nothing effectful (a draw) happens before the skip test
+        sk = [c for c in ctx.env.calls_in[f] if norm(c.func) == "self._skip_value"]
+        ok = ok and len(sk) == 1 and not any(isinstance(c, ast.Call) and "random" in norm(c.func) and not not_after_(ctx, f, sk[0], c) for c in ctx.env.calls_in[f])
         obs.append(ctx.ob("GEN", ["C20"], f, f"{f.qualname} tests the skip probability before producing a value", None, ok,
                           "" if ok else "attributes skipped by probability must be absent"))
     # every subclass constructor forwards `probability` to the base class
@@ -719,80 +820,167 @@ def gen(ctx: Ctx) -> List[Ob]:
             obs.append(ctx.ob("GEN", ["C20"], f, f"{c.name}.__init__ forwards probability to the base class", None, ok,
                               "" if ok else "a randomizer that drops its probability never skips"))
     f = m.func("Randomizer._skip_value")
-    e = one("$u = self.probability == 1.0 or random.random() <= self.probability", f.node)
-    ok = (e is not None and any(match("not $u", r.value, {"$u": e[1]["$u"]}) is not None for r in _returns(f))) \
-        or any(match("not (self.probability == 1.0 or random.random() <= self.probability)", r.value) is not None for r in _returns(f))
+    rs_ = _returns(f)
+    ok = len(rs_) == 1 and norm(rs_[0].value) in (
+        "self.probability != 1.0 and (not random.random() <= self.probability)", "self.probability != 1.0 and random.random() > self.probability",
+        "not (self.probability == 1.0 or random.random() <= self.probability)")
     obs.append(ctx.ob("GEN", ["C20"], f, "_skip_value: skip unless probability is 1 or the draw is within it", None, ok, ""))
     f = m.func("RangeRandomizer.generate")
     ok = has("return random.uniform(self.min, self.max)", f.node) and has("return random.randrange(self.min, self.max)", f.node)
     obs.append(ctx.ob("GEN", ["C20"], f, "RangeRandomizer draws within [min, max)", None, ok, ""))
+    from .util import always_before, not_after, resolve_expr
+
+    def T(g, label, ok, why=""):
+        obs.append(ctx.tri("GEN", ["C20"], g, label, None, ok, why))
+
     f = m.func("_merge_specs")
     nt, sp, ty = f.positional_params()[:3]
-    body = [s for s in f.body if not (isinstance(s, ast.Expr) and isinstance(s.value, ast.Constant))]
-    ok = len(body) == 4
-    if ok:
-        e = match(f"$r = {ty}.get('*', {{}}).copy()", body[0])
-        ok = e is not None and match(f"$r.update({ty}.get({nt}, {{}}))", body[1], e) is not None and match(f"$r.update({sp})", body[2], e) is not None \
-            and match("return $r", body[3], e) is not None
-    obs.append(ctx.ob("GEN", ["C20"], f, "_merge_specs: global defaults, then type defaults, then the relation spec (on a copy)", None, ok, "" if ok else "merge order decides which value wins"))
+    rets = [c for c in exit_cases(ctx, f, ("return",)) if c.value is not None]
+    ok = None
+    if len(rets) == 1 and isinstance(rets[0].value, ast.Name):
+        r = rets[0].value.id
+        inits = [norm(resolve_expr(ctx, f, n_, e_["$$v"], keep=[r])) for n_, e_ in find(f"{r} = $$v", f.node)]
+        ups = [(n_, norm(resolve_expr(ctx, f, n_, e_["$$x"], keep=[r]))) for n_, e_ in find(f"{r}.update($$x)", f.node)]
+        if len(inits) == 1 and ups:
+            order_ok = all(not_after(ctx, f, ups[i][0], ups[i + 1][0]) for i in range(len(ups) - 1))
+            ok = inits[0] in (f"{ty}.get('*', {{}}).copy()", f"dict({ty}.get('*', {{}}))") and [u for _n, u in ups] == [f"{ty}.get({nt}, {{}})", sp] and order_ok
+            why_m = f"base {inits[0]}, then {[u for _n, u in ups]}"
+    T(f, "_merge_specs: global defaults, then type defaults, then the relation spec (on a copy)", ok, (why_m if ok is False else "") + ": merge order decides which value wins")
     f = m.func("_resolve_random_dict")
     d = f.positional_params()[0]
-    lps = [n for n in f.body if isinstance(n, ast.For)]
-    ok = len(lps) == 2
+    gens_ = [c for c in ctx.env.calls_in[f] if isinstance(c.func, ast.Attribute) and c.func.attr == "generate"]
+    pops = find(f"{d}.pop($$k)", f.node)
+    ok = None
     rm = None
-    if ok:
-        e = match(f"for $k in $rm:\n    {d}.pop($k)", lps[1])
-        ok = e is not None
-        rm = e["$rm"] if e else None
-    obs.append(ctx.ob("GEN", ["C20"], f, "skipped keys are removed after the scan (deferred)", None, ok, ""))
-    if lps and rm:
-        lp = lps[0]
-        k = norm(lp.target)
-        ok = has("$v = $v.generate()", lp) and has(f"if $v is None:\n    {rm}.append({k})\nelse:\n    {d}[{k}] = $v", lp) \
-            and any(match(f"if macros and isinstance($v, str):\n    {d}[{k}] = $v.format(**macros)", st) is not None for st in lp.body)
-        obs.append(ctx.ob("GEN", ["C20"], f, "randomizers are resolved, only None results are skipped (0/False/'' are values), every string value (literal or generated) is macro-expanded", None, ok,
-                          "" if ok else "a legal falsy random value must not be dropped; the macro expansion is a separate step after the randomizer was resolved"))
+    if len(pops) == 1 and len(gens_) == 1:
+        lp_ = m.parent_of(pops[0][0])
+        while lp_ is not None and not isinstance(lp_, ast.For):
+            lp_ = m.parent_of(lp_)
+        main = gens_[0]
+        ml = m.parent_of(main)
+        while ml is not None and not isinstance(ml, ast.For):
+            ml = m.parent_of(ml)
+        if lp_ is not None and ml is not None:
+            ok = lp_ is not ml and isinstance(lp_.iter, ast.Name) and not_after(ctx, f, ml, lp_) and norm(pops[0][1]["$$k"]) == norm(lp_.target)
+            rm = lp_.iter.id if isinstance(lp_.iter, ast.Name) else None
+    for n_, _e in pops:
+        lp2 = m.parent_of(n_)
+        while lp2 is not None and not isinstance(lp2, ast.For):
+            lp2 = m.parent_of(lp2)
+        if lp2 is not None and norm(lp2.iter) in (d, f"{d}.keys()", f"{d}.items()", f"{d}.values()"):
+            ok = False
+    T(f, "skipped keys are removed after the scan (deferred)", ok, "removing keys while iterating the dict fails / skips entries")
+    ok = None
+    if rm is not None and len(gens_) == 1:
+        apps = find(f"{rm}.append($$k)", f.node)
+        stores = find(f"{d}[$$k] = $$v", f.node)
+        fmts = [(n_, e_) for n_, e_ in stores if isinstance(e_["$$v"], ast.Call) and isinstance(e_["$$v"].func, ast.Attribute) and e_["$$v"].func.attr == "format"]
+        keeps = [(n_, e_) for n_, e_ in stores if not any(n_ is x for x, _e in fmts)]
+        if len(apps) == 1 and len(fmts) == 1 and len(keeps) == 1:
+            # the generated value: the variable rebound to <x>.generate()
+            gv = m.parent_of(gens_[0])
+            gname = gv.targets[0].id if isinstance(gv, ast.Assign) and isinstance(gv.targets[0], ast.Name) else None
+            if gname is not None:
+                ta, tk, tf = cond_texts(path_conds(ctx, f, apps[0][0])), cond_texts(path_conds(ctx, f, keeps[0][0])), cond_texts(path_conds(ctx, f, fmts[0][0]))
+                skip_ok = f"{gname} is None" in ta and (f"not ({gname} is None)" in tk or f"not {gname} is None" in tk) and norm(keeps[0][1]["$$v"]) == gname
+                fv = fmts[0][1]["$$v"]
+                subj = norm(fv.func.value)
+                fmt_ok = "macros" in tf and f"isinstance({subj}, str)" in tf and not any("Randomizer" in t_ for t_ in tf) and norm(fv) == f"{subj}.format(**macros)" \
+                    and subj == gname and not_after(ctx, f, gens_[0], fmts[0][0])
+                ok = skip_ok and fmt_ok
+    T(f, "randomizers are resolved, only None results are skipped (0/False/'' are values), every string value (literal or generated) is macro-expanded", ok,
+      "a legal falsy random value must not be dropped; the macro expansion is a separate step after the randomizer was resolved")
     f = m.func("_make_tree")
-    checks = [
-        ("$cs = relations[parent_type]", "children come from the parent type's relation"),
-        ("$s = _merge_specs($nt, $s, types)", "attribute merge per child type"),
-        ("$c = $s.pop(':count', 1)", "count defaults to 1"),
-        ("$c = _resolve_random($c) or 0", "randomized counts are resolved"),
-        ("$i += 1", "1-based sibling index"),
-        ("$p = f'{prefix}.{$i}' if prefix else f'{$i}'", "dotted index path from the parent's prefix"),
-        ("$d = $s.copy()", "each node gets its own attribute dict"),
-        ("_resolve_random_dict($d, macros={'idx': $i, 'hier_idx': $p})", "both macros supplied"),
-        ("$nd = $f(**$d)", "node data built from the attributes"),
-        ("$n = parent_node.add_child($nd, kind=$nt)", "typed trees carry the type name as kind"),
-        ("$n = parent_node.add_child($nd)", "plain trees add the data"),
-        ("_make_tree(parent_node=$n, parent_type=$nt, types=types, relations=relations, prefix=$p)", "recursion below the new node with its type and prefix"),
-    ]
-    env: Dict[str, object] = {}
     lp0 = [n for n in ast.walk(f.node) if isinstance(n, ast.For) and isinstance(n.target, ast.Tuple) and len(n.target.elts) == 2]
-    if lp0:
-        env["$nt"] = norm(lp0[0].target.elts[0])
-        env["$s"] = norm(lp0[0].target.elts[1])
-    for txt, why in checks:
-        hits = find(txt, f.node, env)
-        ok = bool(hits)
-        if ok:
-            for k, v in hits[0][1].items():
-                env.setdefault(k, v)
-        obs.append(ctx.ob("GEN", ["C20"], f, f"_make_tree: {why}", None, ok, "" if ok else f"expected a statement of the shape `{txt}`"))
-    lps = [n for n in ast.walk(f.node) if isinstance(n, ast.For) and match("range($c)", n.iter, {k: v for k, v in env.items() if k == "$c"}) is not None]
-    obs.append(ctx.ob("GEN", ["C20"], f, "_make_tree: exactly `count` children per relation", None, len(lps) == 1, ""))
-    rec_if = [n for n in ast.walk(f.node) if isinstance(n, ast.If) and match("$nt in relations", n.test, {k: v for k, v in env.items() if k == "$nt"}) is not None]
-    obs.append(ctx.ob("GEN", ["C20"], f, "_make_tree: children only for types that have relations", None, len(rec_if) == 1, ""))
-    tn = [n for n in ast.walk(f.node) if isinstance(n, ast.If) and norm(n.test) == "isinstance(parent_node, TypedNode)"]
-    obs.append(ctx.ob("GEN", ["C20"], f, "_make_tree: kind is passed exactly for typed parents", None, len(tn) == 1, ""))
+    if len(lp0) != 1:
+        T(f, "_make_tree: children come from the parent type's relation", None, "relation loop not recognised")
+    else:
+        ol = lp0[0]
+        ntv, spv = norm(ol.target.elts[0]), norm(ol.target.elts[1])
+        T(f, "_make_tree: children come from the parent type's relation", norm(resolve_expr(ctx, f, ol, ol.iter)) == "relations[parent_type].items()", f"iterates {norm(ol.iter)}")
+        rl = [n for n in ast.walk(ol) if isinstance(n, ast.For) and isinstance(n.iter, ast.Call) and norm(n.iter.func) == "range"]
+        ms = [c for c in ast.walk(ol) if isinstance(c, ast.Call) and norm(c.func) == "_merge_specs"]
+        T(f, "_make_tree: attribute merge per child type", (len(ms) == 1 and [norm(a_) for a_ in ms[0].args] == [ntv, spv, "types"]) if ms else None, "")
+        if len(rl) == 1:
+            il = rl[0]
+            iv = norm(il.target)
+            cnt = norm(resolve_expr(ctx, f, il, il.iter.args[-1] if il.iter.args else il.iter))
+            spec_name = None
+            mm = match("_resolve_random($$s.pop(':count', 1)) or 0", resolve_expr(ctx, f, il, il.iter.args[0])) if len(il.iter.args) == 1 else None
+            T(f, "_make_tree: exactly `count` children per relation; count defaults to 1 and randomized counts are resolved (None -> 0)", mm is not None, f"count is `{cnt}`")
+            inc = find(f"{iv} += 1", il)
+            one_based = (len(inc) == 1 and il.body and any(inc[0][0] is x for x in ast.walk(il.body[0])))
+            T(f, "_make_tree: 1-based sibling index", bool(one_based), "indices start at 1")
+            # the dotted path
+            rr = [c for c in ast.walk(il) if isinstance(c, ast.Call) and norm(c.func) == "_resolve_random_dict"]
+            ok = None
+            if len(rr) == 1:
+                mk = [k for k in rr[0].keywords if k.arg == "macros"]
+                if mk and isinstance(mk[0].value, ast.Dict):
+                    md = {norm(k): v for k, v in zip(mk[0].value.keys, mk[0].value.values)}
+                    ok = set(md) == {"'idx'", "'hier_idx'"} and norm(md["'idx'"]) == iv
+                    if ok and isinstance(md["'hier_idx'"], ast.Name):
+                        pv = md["'hier_idx'"].id
+                        a1 = find_under(ctx, f, f"{pv} = f'{{prefix}}.{{{iv}}}'", [("prefix", True)])
+                        a2 = find_under(ctx, f, f"{pv} = f'{{{iv}}}'", [("prefix", False)])
+                        ok = len(a1) == 1 and len(a2) == 1 and len(find(f"{pv} = $$v", f.node)) == 2
+                    elif ok:
+                        ok = norm(md["'hier_idx'"]) == f"f'{{prefix}}.{{{iv}}}' if prefix else f'{{{iv}}}'"
+                    dat = norm(resolve_expr(ctx, f, rr[0], rr[0].args[0], keep=[spv])) if rr[0].args else "?"
+                    T(f, "_make_tree: each node gets its own attribute dict", dat in (f"{spv}.copy()", f"dict({spv})"), f"the randomizers are resolved in `{dat}`")
+            T(f, "_make_tree: both macros supplied (idx, hier_idx = dotted index path from the parent's prefix)", ok, "")
+            adds = [c for c in ast.walk(il) if isinstance(c, ast.Call) and norm(c.func) == "parent_node.add_child"]
+            ok = None
+            if adds:
+                tab = {}
+                for c in adds:
+                    ts = cond_texts(path_conds(ctx, f, c))
+                    who = "typed" if "isinstance(parent_node, TypedNode)" in ts else ("plain" if "not isinstance(parent_node, TypedNode)" in ts else "?")
+                    a0 = resolve_expr(ctx, f, c, c.args[0]) if c.args else None
+                    built = a0 is not None and isinstance(a0, ast.Call) and len(a0.keywords) == 1 and a0.keywords[0].arg is None and not a0.args
+                    tab[who] = (sorted((k.arg, norm(k.value)) for k in c.keywords), built)
+                ok = tab == {"typed": ([("kind", ntv)], True), "plain": ([], True)}
+            T(f, "_make_tree: node data built from the attributes; typed parents pass kind=<type name>, plain parents only the data", ok, "")
+            recs = [c for c in ast.walk(il) if isinstance(c, ast.Call) and norm(c.func) == "_make_tree"]
+            ok = None
+            if len(recs) == 1:
+                kw = {k.arg: k.value for k in recs[0].keywords}
+                ts = cond_texts(path_conds(ctx, f, recs[0]))
+                pn_vals = reaching_values(ctx, f, recs[0], kw.get("parent_node")) if kw.get("parent_node") is not None else []
+                ok = f"{ntv} in relations" in ts and bool(adds) and all(any(v_ is a_ for a_ in adds) for v_ in pn_vals) and len(pn_vals) == len(adds) \
+                    and norm(kw.get("parent_type")) == ntv and norm(kw.get("types")) == "types" and norm(kw.get("relations")) == "relations" \
+                    and rr and isinstance(mk[0].value, ast.Dict) and norm(kw.get("prefix")) == norm(md["'hier_idx'"])
+            T(f, "_make_tree: recursion below the new node with its type and prefix, only for types that have relations", ok, "")
+        else:
+            T(f, "_make_tree: exactly `count` children per relation; count defaults to 1 and randomized counts are resolved (None -> 0)", None, "count loop not recognised")
     f = m.func("build_random_tree")
-    e = None
-    for n in ast.walk(f.node):
-        if isinstance(n, (ast.Assign, ast.AnnAssign)) and n.value is not None and match("tree_class(name=$n, forward_attrs=True)", n.value) is not None:
-            e = norm(n.target if isinstance(n, ast.AnnAssign) else n.targets[0])
-    ok = e is not None and has(f"_make_tree(parent_node={e}.system_root, parent_type='__root__', types=$t, relations=$r, prefix='')", f.node) \
-        and any(norm(r.value) == e for r in _returns(f)) and has("structure_def = structure_def.copy()", f.node)
-    obs.append(ctx.ob("GEN", ["C20"], f, "build_random_tree instantiates the requested class and starts at '__root__' (on a copy of the definition)", None, ok, ""))
+    ctor = [c for c in ctx.env.calls_in[f] if norm(c.func) == "tree_class"]
+    mt = [c for c in ctx.env.calls_in[f] if norm(c.func) == "_make_tree"]
+    ok = None
+    if not ctor:
+        ok = False  # the requested class is never instantiated
+    if len(ctor) == 1 and len(mt) == 1:
+        kw = {k.arg: norm(resolve_expr(ctx, f, ctor[0], k.value)) for k in ctor[0].keywords}
+        ok = kw.get("forward_attrs") == "True" and (kw.get("name") or "").endswith(".pop('name', None)")
+        mk_ = {k.arg: k.value for k in mt[0].keywords}
+        pn = mk_.get("parent_node")
+        ok = ok and pn is not None and isinstance(pn, ast.Attribute) and pn.attr in ("system_root", "_root") and any(v_ is ctor[0] for v_ in reaching_values(ctx, f, mt[0], pn.value)) \
+            and norm(mk_.get("parent_type")) == "'__root__'" and norm(mk_.get("prefix")) == "''"
+        rets = [c for c in exit_cases(ctx, f, ("return",)) if c.value is not None]
+        ok = ok and len(rets) == 1 and any(v_ is ctor[0] for v_ in reaching_values(ctx, f, rets[0].stmt, rets[0].value))
+        # the caller's definition is not consumed: every pop works on a copy
+        for c in ctx.env.calls_in[f]:
+            if isinstance(c.func, ast.Attribute) and c.func.attr == "pop":
+                recv = c.func.value
+                if isinstance(recv, ast.Name) and recv.id in f.param_names():
+                    cps = [n_ for n_, _e in find(f"{recv.id} = {recv.id}.copy()", f.node) + find(f"{recv.id} = dict({recv.id})", f.node)]
+                    if not (len(cps) == 1 and always_before(ctx, f, cps[0], c)):
+                        ok = False
+                else:
+                    vals = [norm(v_) for v_ in reaching_values(ctx, f, c, recv)]
+                    if not all(v_ in ("structure_def.copy()", "dict(structure_def)") for v_ in vals):
+                        ok = False
+    T(f, "build_random_tree instantiates the requested class and starts at '__root__' (on a copy of the definition)", ok, "")
     f = m.func("Tree.build_random_tree")
     ok = has("build_random_tree(tree_class=cls, structure_def=structure_def)", f.node)
     obs.append(ctx.ob("GEN", ["C20"], f, "Tree.build_random_tree passes its own class", None, ok, ""))
